@@ -794,7 +794,7 @@ fn sched_run(prop: &str, run: usize, seed: u64) -> Vec<J> {
                 *first = Entry::Expr(Expr::bin("/", Expr::Num(1), Expr::Num(0)));
             }
             let id = g.row_id();
-            let at = g.rng.gen_range(g.k.vars.len() + g.k.max_depth + 1..=prog.len());
+            let at = g.rng.gen_range(0..=prog.len()); // (the assignments below are put in front of it)
             prog.insert(at, Stmt::Row { id, entries: es });
         }
         // a static test: every name is assigned at top level before it is used, so nothing is read from the device
